@@ -88,7 +88,7 @@ theorem range2_cons (name : String) (d0 : Int) (o : List Int) (n : MNode weights
 grows by the child's weight; children, segment and the other fields stay -/
 theorem Propagate_range_agrees (name : String) :
     ∀ (o : List Int) (n : MNode weights.Value) (W : AMap Int Rat), n.Value.Weights = some W → o.Nodup →
-      ∃ W', weights.Report.PropagateWeights.post1.range2 name o n = .ok (setW n W') ∧
+      ∃ W', weights.Report.PropagateWeights.post1.range2 name o n = .ok (setW n W') ∧ (NodupKeys W → NodupKeys W') ∧
         (∀ d, AMap.find? W' d =
           if d ∈ o ∧ (AMap.find? (childW n name) d).isSome then some (AMap.get W d 0 + AMap.get (childW n name) d 0)
           else AMap.find? W d) := by
@@ -96,7 +96,7 @@ theorem Propagate_range_agrees (name : String) :
   induction o with
   | nil =>
     intro n W hW _
-    refine ⟨W, ?_, fun d => by simp⟩
+    refine ⟨W, ?_, id, fun d => by simp⟩
     unfold weights.Report.PropagateWeights.post1.range2
     rw [setW_self n W hW]
   | cons d0 o ih =>
@@ -106,8 +106,8 @@ theorem Propagate_range_agrees (name : String) :
     cases hf : AMap.find? (childW n name) d0 with
     | none =>
       simp only [Option.isSome_none, Bool.not_false, if_true]
-      obtain ⟨W', h1, h2⟩ := ih n W hW ho'.2
-      refine ⟨W', h1, ?_⟩
+      obtain ⟨W', h1, hn, h2⟩ := ih n W hW ho'.2
+      refine ⟨W', h1, hn, ?_⟩
       intro d
       rw [h2 d]
       by_cases hd : d = d0
@@ -115,8 +115,8 @@ theorem Propagate_range_agrees (name : String) :
       · simp [hd]
     | some c =>
       simp only [Option.isSome_some, Bool.not_true, Bool.false_eq_true, if_false]
-      obtain ⟨W', h1, h2⟩ := ih (setW n (AMap.set W d0 (AMap.get W d0 0 + AMap.get (childW n name) d0 0))) _ rfl ho'.2
-      refine ⟨W', by rw [h1, setW_setW], ?_⟩
+      obtain ⟨W', h1, hn, h2⟩ := ih (setW n (AMap.set W d0 (AMap.get W d0 0 + AMap.get (childW n name) d0 0))) _ rfl ho'.2
+      refine ⟨W', by rw [h1, setW_setW], fun h => hn (nodupKeys_set _ _ _ h), ?_⟩
       intro d
       rw [h2 d, childW_setW, AMap.find?_set]
       by_cases hd : d0 = d
@@ -132,18 +132,18 @@ theorem Propagate_children_agrees (n : MNode weights.Value) (o : List Int) (ho :
     ∀ (L : List String) (W : AMap Int Rat), ∃ W',
       foldlE (fun (st2 : MNode weights.Value) (el3 : String) =>
           GoSem.Outcome.bind (weights.Report.PropagateWeights.post1.range2 el3 o st2) (fun n => GoSem.Outcome.ok n)) (setW n W) L =
-        .ok (setW n W') ∧
+        .ok (setW n W') ∧ (NodupKeys W → NodupKeys W') ∧
       (∀ d, AMap.get W' d 0 = AMap.get W d 0 + (L.map (fun name => AMap.get (childW n name) d 0)).sum) ∧
       (∀ d, (AMap.find? W' d).isSome = ((AMap.find? W d).isSome || L.any (fun name => (AMap.find? (childW n name) d).isSome))) := by
   intro L
   induction L with
-  | nil => intro W; exact ⟨W, rfl, fun d => by simp [Rat.add_zero], fun d => by simp⟩
+  | nil => intro W; exact ⟨W, rfl, id, fun d => by simp [Rat.add_zero], fun d => by simp⟩
   | cons name L ih =>
     intro W
-    obtain ⟨W1, h1, h2⟩ := Propagate_range_agrees name o (setW n W) W rfl ho
+    obtain ⟨W1, h1, hn1, h2⟩ := Propagate_range_agrees name o (setW n W) W rfl ho
     simp only [childW_setW] at h2
-    obtain ⟨W', h3, h4, h5⟩ := ih W1
-    refine ⟨W', ?_, ?_, ?_⟩
+    obtain ⟨W', h3, hn3, h4, h5⟩ := ih W1
+    refine ⟨W', ?_, fun h => hn3 (hn1 h), ?_, ?_⟩
     · simp only [foldlE, h1, setW_setW, bind_okW, h3]
     · intro d
       rw [h4 d, List.map_cons, sum_cons]
@@ -167,6 +167,7 @@ reaches the dates of all children: the node's map afterwards has on every date t
 theorem Propagate_post_agrees (order : List String → List Int) (path : List String) (n : MNode weights.Value)
     (ho : (order path).Nodup) (hcov : ∀ name d, (AMap.find? (childW n name) d).isSome → d ∈ order path) :
     ∃ W', weights.Report.PropagateWeights.post1 order path () n = .ok ((), setW n W') ∧
+      (NodupKeys (n.Value.Weights.getD []) → NodupKeys W') ∧
       (∀ d, AMap.get W' d 0 = AMap.get (n.Value.Weights.getD []) d 0 +
         ((sortedKeys n.Children cmpOrdered).map (fun name => AMap.get (childW n name) d 0)).sum) ∧
       (∀ d, (AMap.find? W' d).isSome = ((AMap.find? (n.Value.Weights.getD []) d).isSome ||
@@ -174,14 +175,14 @@ theorem Propagate_post_agrees (order : List String → List Int) (path : List St
   unfold weights.Report.PropagateWeights.post1
   cases hw : n.Value.Weights with
   | none =>
-    obtain ⟨W', h1, h2, h3⟩ := Propagate_children_agrees n (order path) ho hcov (sortedKeys n.Children cmpOrdered) []
-    refine ⟨W', ?_, h2, h3⟩
+    obtain ⟨W', h1, hn, h2, h3⟩ := Propagate_children_agrees n (order path) ho hcov (sortedKeys n.Children cmpOrdered) []
+    refine ⟨W', ?_, hn, h2, h3⟩
     simp only [Option.isNone_none, if_true]
     have : ({ n with Value := { n.Value with Weights := some ([] : AMap Int Rat) } } : MNode weights.Value) = setW n [] := rfl
     rw [this, h1]; rfl
   | some W =>
-    obtain ⟨W', h1, h2, h3⟩ := Propagate_children_agrees n (order path) ho hcov (sortedKeys n.Children cmpOrdered) W
-    refine ⟨W', ?_, h2, h3⟩
+    obtain ⟨W', h1, hn, h2, h3⟩ := Propagate_children_agrees n (order path) ho hcov (sortedKeys n.Children cmpOrdered) W
+    refine ⟨W', ?_, hn, h2, h3⟩
     simp only [Option.isNone_some, Bool.false_eq_true, if_false]
     rw [setW_self n W hw] at h1
     rw [h1]; rfl
